@@ -45,7 +45,7 @@ def run_scenario(job):
                           max_states=scen.get('max_states', 200000),
                           time_cap_s=scen.get('time_cap_s'), known=known,
                           use_snapshot=scen.get('use_snapshot', True),
-                          validate_every=scen.get('validate_every', 25),
+                          validate_every=scen.get('validate_every', 50),
                           liveness=scen.get('liveness', True), scenario=scen['name'])
             res = ex.run()
             out = dict(
